@@ -55,12 +55,12 @@ type Engine struct {
 	Flushed int      // events known durable (successful flush)
 	Acked   int      // events ACKed successfully
 	// reader model
-	InTx        bool
-	VisibleEnd  int // events visible to the open read transaction
-	ReadPos     int // next event the reader will deliver
-	InEvent     bool
-	EventLeft   []byte // unread bytes of the event being read
-	Consumed    int    // events fully read or skipped by the reader in this session
+	InTx       bool
+	VisibleEnd int // events visible to the open read transaction
+	ReadPos    int // next event the reader will deliver
+	InEvent    bool
+	EventLeft  []byte // unread bytes of the event being read
+	Consumed   int    // events fully read or skipped by the reader in this session
 	// callbacks
 	CbFlushed, CbAcked uint
 	cbMu               sync.Mutex
@@ -85,8 +85,8 @@ type Engine struct {
 
 // Snap is the durable queue state (events [Acked:Flushed) of Events) at a position of the disk log.
 type Snap struct {
-	LogIndex        int
-	Flushed, Acked  int
+	LogIndex       int
+	Flushed, Acked int
 }
 
 // Content returns the bytes of event number [event] (first n bytes).
